@@ -250,3 +250,10 @@ reg("C33", "enum", "A design with five emission sites (top level, under m.If, in
     "cycle order.",
     "bounded-exhaustive enumeration of stimulus histories, each executed on the real simulator processes and compared with a reference",
     note="Trusts Amaranth's simulator; the Yosys-produced Verilog name map is not exercised (sampler handles are synthesised).")
+
+reg("C35", "enum", "For every well-formed design of the small DSL families (flat, chain, rel, nest, ctrl; <= 8 input bits) under both "
+    "schedulers the real profiler_process runs in a real simulation whose stimulus walks twice through every input valuation, next to "
+    "a monitor sampling ready/run of every body; every CycleProfile (running set, callers, locked entries) is compared with the monitor "
+    "and the reference call/conflict relations; analyze_transactions counts and encode/decode round trip are checked.",
+    "bounded-exhaustive design enumeration, each design simulated over every input valuation with the real profiler process",
+    note="Trusts Amaranth's simulator and the reference relations of vlib/dsl.py; designs bounded to the listed families.")
